@@ -38,6 +38,13 @@ func (in *Interp) noteIndex(kind string, x, idx Val, site ssa.Instruction) {
 		return
 	}
 	rec := IdxRec{Kind: kind, X: Key(x), I: Key(idx), Site: site}
+	if len(rec.X)+len(rec.I) > 4000 {
+		// a term that has grown this large comes out of an unbounded loop over
+		// symbolic data: no proof is attempted
+		rec.X, rec.I = rec.X[:min(len(rec.X), 200)]+"…", rec.I[:min(len(rec.I), 200)]+"…"
+		in.IdxLog = append(in.IdxLog, rec)
+		in.Undecided("symbolic term too large (an unbounded loop over symbolic data)", site)
+	}
 	need := int64(1) // index: len > idx
 	if kind == "slice" {
 		need = 0 // slice high: len >= idx
